@@ -29,8 +29,13 @@ func call(overrideFN *string, namespace types.EnvType, fIn types.MalType, args .
 	var functionName string
 	if overrideFN != nil {
 		functionName = *overrideFN
-		m := strings.LastIndex(packageName, ".")
-		functionFullName = fmt.Sprintf("%s[%s]", packageName[:m], *overrideFN)
+		// a closure's name ends in ".<enclosing function>.funcN": drop the enclosing function; a named
+		// function has no such element (and its package path may contain no dot at all)
+		if m := strings.LastIndex(packageName, "."); m > strings.LastIndex(packageName, "/") {
+			functionFullName = fmt.Sprintf("%s[%s]", packageName[:m], *overrideFN)
+		} else {
+			functionFullName = fmt.Sprintf("%s[%s]", packageName, *overrideFN)
+		}
 	} else {
 		functionName = strings.Replace(functionFullName[n+1:], "_", "-", -1)
 		functionFullName = fmt.Sprintf("%s[%s]", packageName, functionName)
